@@ -250,7 +250,10 @@ class Runner:
                     # an injector that dies before its k-th intercepted call: leaves a stale entry behind
                     m = h["messages"][act[1]]
                     ctl.expect_noticed = 0
-                    ctl.inject(m["body"], m["sender"], m["rcpts"], env_extra={"VERIF_KILL": str(act[2])})
+                    xe = {"VERIF_KILL": str(act[2])}
+                    if len(act) > 3:
+                        xe["VERIF_KILL_SIG"] = str(act[3])      # not killed: sent this signal (14 = its own 24-hour timer) at that instant
+                    ctl.inject(m["body"], m["sender"], m["rcpts"], env_extra=xe)
                     ctl.run()
                 elif op == "inject_fault":
                     # an injector whose envelope stream ends early (it cleans up after itself) and whose k-th call fails on top
